@@ -134,48 +134,55 @@ Fixpoint cm_incr (cm : countmap) (n : Z) : countmap :=
   | (k, v) :: t => if k =? n then (k, S v) :: t else (k, v) :: cm_incr t n
   end.
 
+(** Children are visited left to right, threading the countMap. *)
+Definition fold_kids (f : tree -> countmap -> outcome (list range * countmap))
+  : list tree -> countmap -> outcome (list range * countmap) :=
+  fix go (ks : list tree) (cm : countmap) : outcome (list range * countmap) :=
+    match ks with
+    | [] => Ok ([], cm)
+    | k :: ks' =>
+        match f k cm with
+        | Ok (r1, cm2) =>
+            match go ks' cm2 with
+            | Ok (r2, cm3) => Ok (r1 ++ r2, cm3)
+            | Err c => Err c | Panic => Panic | OutOfFuel => OutOfFuel
+            end
+        | Err c => Err c | Panic => Panic | OutOfFuel => OutOfFuel
+        end
+    end.
+
+(** Offset by name and visit count. [Panic]: [v.rangeMap[name][count]] out of range. *)
+Definition lookup (rm : rangemap) (name : Z) (proc : bool) (cm : countmap) : outcome (Z * countmap) :=
+  if name =? 0 then Ok (MAXU64, cm)
+  else if proc then Ok (MAXU64, cm_incr cm name)
+  else match nth_error (rm_get rm name) (cm_get cm name) with
+       | Some r => Ok (fst r, cm_incr cm name)
+       | None => Panic
+       end.
+
+(** The range handed to the callback: the looked-up offset, or the container's range. *)
+Definition reported_range (fb : bool) (cont : option range) (off len : Z) : range :=
+  match cont with
+  | Some c => if (off =? MAXU64) && fb then c else (off, len)
+  | None => (off, len)
+  end.
+
+Definition next_cont (proc : bool) (rng : range) (cont : option range) : option range :=
+  if negb proc && negb (fst rng =? MAXU64) then Some rng else cont.
+
 (** One [Visit]: returns the reported ranges (callback invocations, in order) of the
-    subtree and the new countMap. [Panic]: [v.rangeMap[name][count]] out of range. *)
+    subtree and the new countMap. *)
 Fixpoint visit (rm : rangemap) (fb : bool) (t : tree)
          (skipping proc : bool) (cont : option range) (cm : countmap)
   : outcome (list range * countmap) :=
   match t with
   | T name procsec stop _ len kids =>
-      (* offset by name and visit count *)
-      let lookup : outcome (Z * countmap) :=
-        if name =? 0 then Ok (MAXU64, cm)
-        else if proc then Ok (MAXU64, cm_incr cm name)
-        else match nth_error (rm_get rm name) (cm_get cm name) with
-             | Some r => Ok (fst r, cm_incr cm name)
-             | None => Panic
-             end in
-      match lookup with
+      match lookup rm name proc cm with
       | Ok (off, cm1) =>
-          let rng : range :=
-            match cont with
-            | Some c => if (off =? MAXU64) && fb then c else (off, len)
-            | None => (off, len)
-            end in
-          let report := if skipping then [] else [rng] in
-          let skipping' := skipping || stop in
-          let cont' := if negb proc && negb (fst rng =? MAXU64) then Some rng else cont in
-          let proc' := proc || procsec in
-          match
-            (fix go (ks : list tree) (cm : countmap) : outcome (list range * countmap) :=
-               match ks with
-               | [] => Ok ([], cm)
-               | k :: ks' =>
-                   match visit rm fb k skipping' proc' cont' cm with
-                   | Ok (r1, cm2) =>
-                       match go ks' cm2 with
-                       | Ok (r2, cm3) => Ok (r1 ++ r2, cm3)
-                       | Err c => Err c | Panic => Panic | OutOfFuel => OutOfFuel
-                       end
-                   | Err c => Err c | Panic => Panic | OutOfFuel => OutOfFuel
-                   end
-               end) kids cm1
-          with
-          | Ok (rs, cm') => Ok (report ++ rs, cm')
+          let rng := reported_range fb cont off len in
+          match fold_kids (fun k cm' => visit rm fb k (skipping || stop) (proc || procsec)
+                                          (next_cont proc rng cont) cm') kids cm1 with
+          | Ok (rs, cm') => Ok ((if skipping then [] else [rng]) ++ rs, cm')
           | Err c => Err c | Panic => Panic | OutOfFuel => OutOfFuel
           end
       | Err c => Err c | Panic => Panic | OutOfFuel => OutOfFuel
